@@ -29,6 +29,11 @@ CLAIMED.update({
          "note": "Bounded (not proved): MetadataParser over comments of <=2 fields, PrintMode.update_printers over lists <=4, end-to-end mode runs over 4 files. Assumes [A]: ModeController.get reads metadata; records/match verdicts as interface objects.",
          "tech": TECH + " + bounded native complement for the comment scanner and printer list"},
 })
+CLAIMED.update({
+ "C07": {"text": "collect() and fast_forward() are proved to be drivers of next(): collect returns next()'s lines in order (iota spec function, loop invariant), all of them or the first n, and advances the generator exactly as many times as lines it returns (ghost pull counter, so no side effect of a later line can have run); fast_forward drains next() and writes nothing else (frame); next() itself is under contract (stops, finalizes). A bounded differential run of the three real entry points closes the [A] generator glue.",
+         "note": "Assumes [A] Python's generator protocol and next() as the only producer; bounded: 416 (csvpath, file, mode) cases compared across collect/next/fast_forward and collect(nexts=n).",
+         "tech": TECH + " + bounded differential complement"},
+})
 NA_REASON = {}
 m = {
  "version": 1, "setup_cmd": "./setup.sh",
